@@ -2359,6 +2359,41 @@ static const struct echs_evstrm_class_s evrrul_cls = {
 	.seria = send_evrrul,
 };
 
+static struct rrulsp_s
+fix_rrul_dflts(struct rrulsp_s rr, echs_instant_t from)
+{
+/* Refills are seeded with the last occurrence handed out, which under
+ * a SHIFT is a shifted date, so whatever a rule leaves to DTSTART must
+ * be taken from DTSTART now and made explicit. */
+	const echs_instant_t p = echs_instant_detach_scale(
+		echs_instant_rescale(from, rr.scale));
+
+	if (LIKELY(!rr.shift)) {
+		return rr;
+	} else if (bi447_has_bits_p(&rr.dow) ||
+		   bi383_has_bits_p(&rr.doy) ||
+		   bi383_has_bits_p(&rr.easter) ||
+		   bi31_has_bits_p(rr.dom) ||
+		   bi63_has_bits_p(rr.wk)) {
+		return rr;
+	}
+	switch (rr.freq) {
+	case FREQ_YEARLY:
+		if (!bui31_has_bits_p(rr.mon) && p.m && p.m <= 12U) {
+			rr.mon = ass_bui31(rr.mon, p.m);
+		}
+		/*@fallthrough@*/
+	case FREQ_MONTHLY:
+		if (p.d && p.d <= 31U) {
+			rr.dom = ass_bi31(rr.dom, p.d);
+		}
+		break;
+	default:
+		break;
+	}
+	return rr;
+}
+
 static echs_evstrm_t
 __make_evrrul(echs_event_t e, rrulsp_t rr, size_t nr)
 {
@@ -2384,14 +2419,14 @@ __make_evrrul(echs_event_t e, rrulsp_t rr, size_t nr)
 	this->pof = echs_instant_tzof(e.from, zon);
 
 	/* bang the first one */
-	this->rrul = rr[0U];
+	this->rrul = fix_rrul_dflts(rr[0U], e.from);
 	this->seq = 0U;
 	this->ref = nr;
 	that[0U] = this;
 	/* bang the rest borrowing some fields from the first one */
 	for (size_t i = 1U; i < nr; i++) {
 		this[i] = this[0U];
-		this[i].rrul = rr[i];
+		this[i].rrul = fix_rrul_dflts(rr[i], e.from);
 		this[i].seq = i;
 		that[i] = this + i;
 	}
